@@ -40,7 +40,7 @@ def build_devices(spec, rec, loop):
         if d.get("motors"):
             devs[name].motors = [devs[m] for m in d["motors"]]
         if d.get("faults"):
-            devs[name].faults = dict(d["faults"])
+            devs[name].faults = {k: (list(v) if isinstance(v, list) else v) for k, v in d["faults"].items()}
     return devs
 
 
